@@ -58,13 +58,18 @@ type Case struct {
 	Extra    string   `json:"extra"`       // extra coverage run: count-append | set-overwrite | set-append-new | eqflags | mode-only
 	Straddle bool     `json:"straddle"`    // a statement list is left open across two program files
 	Missing  bool     `json:"missing_input"` // a non-existent input file is named as the last argument
+	DirInput bool     `json:"dir_input"`     // an unreadable operand (a directory) is named as an input file
+	StdinLeft bool    `json:"stdin_left"`    // standard input is a file shared with a following reader; the bytes left are compared
 	NoCLI    bool     `json:"nocli"`       // correspondence of AddFile / Annotate only (no process is started)
 }
 
 type runRes struct {
 	Stdout, Stderr string
 	Status         int
+	Left           string // what the command left unread on its standard input ("" unless asked for)
 }
+
+const leftMark = "\x1e--left-on-stdin--\x1e"
 
 type corrReq struct {
 	class, input, req, impl string
@@ -75,7 +80,7 @@ type H struct {
 	base  string
 }
 
-func (h *H) runCLI(dir string, args []string, stdin string) runRes {
+func (h *H) runCLI(dir string, args []string, stdin string, left bool) runRes {
 	// the generated programs terminate at once; a run that hits the timeout (overloaded machine)
 	// is repeated with a longer one and, if it still does not finish, reported as status -999,
 	// which checkCase turns into a harness error, never into a finding
@@ -84,11 +89,27 @@ func (h *H) runCLI(dir string, args []string, stdin string) runRes {
 		cmd := exec.CommandContext(ctx, h.goawk, args...)
 		cmd.Dir = dir
 		cmd.Stdin = strings.NewReader(stdin)
+		var stdinFile *os.File
+		if left {
+			// standard input is a regular file shared with a following reader: whether goawk read
+			// its input at all is observable as the bytes that reader still finds
+			sf := filepath.Join(dir, "stdin.txt")
+			if err := os.WriteFile(sf, []byte(stdin), 0o644); err == nil {
+				stdinFile, _ = os.Open(sf)
+			}
+			sh := []string{"-c", `"$0" "$@"; st=$?; printf '\036--left-on-stdin--\036'; cat; exit $st`, h.goawk}
+			cmd = exec.CommandContext(ctx, "/bin/sh", append(sh, args...)...)
+			cmd.Dir = dir
+			cmd.Stdin = stdinFile
+		}
 		var out, errb bytes.Buffer
 		cmd.Stdout, cmd.Stderr = &out, &errb
 		err := cmd.Run()
 		timedOut := ctx.Err() != nil
 		cancel()
+		if stdinFile != nil {
+			stdinFile.Close()
+		}
 		if timedOut {
 			continue
 		}
@@ -100,9 +121,17 @@ func (h *H) runCLI(dir string, args []string, stdin string) runRes {
 				st = -999
 			}
 		}
-		return runRes{out.String(), errb.String(), st}
+		o, l := out.String(), ""
+		if left {
+			if k := strings.LastIndex(o, leftMark); k >= 0 {
+				o, l = o[:k], o[k+len(leftMark):]
+			} else {
+				st = -999
+			}
+		}
+		return runRes{o, errb.String(), st, l}
 	}
-	return runRes{"", "timeout", -999}
+	return runRes{"", "timeout", -999, ""}
 }
 
 var lineRe = regexp.MustCompile(`^(.*):(\d+)\.(\d+),(\d+)\.(\d+) (\d+) (\d+)$`)
@@ -179,6 +208,11 @@ func (h *H) checkCase(n int, c *Case) (res caseResult) {
 			return
 		}
 		inArgs = append(inArgs, p)
+	}
+	if c.DirInput {
+		d := filepath.Join(dir, "unreadable-operand.d")
+		_ = os.MkdirAll(d, 0o755)
+		inArgs = append(inArgs, d)
 	}
 	if c.Missing {
 		inArgs = append(inArgs, filepath.Join(dir, "no-such-input.txt"))
@@ -276,7 +310,7 @@ func (h *H) checkCase(n int, c *Case) (res caseResult) {
 
 	// ---- plain run ----
 	plainArgs := append(append([]string{}, progArgs...), inArgs...)
-	plain := h.runCLI(dir, plainArgs, c.Input)
+	plain := h.runCLI(dir, plainArgs, c.Input, c.StdinLeft)
 	if plain.Status == -999 || plain.Status == -1 {
 		res.herr = "the plain command could not be run or was killed: " + plain.Stderr + "\n" + progText
 		return
@@ -419,7 +453,7 @@ END { if (zz_p == 12345) { zz_p = 1; { zz_p = 2 } } }
 		}
 		if v.prevRun {
 			pa := append(append(append([]string{}, v.flags...), prevArgs...), inArgs...)
-			pr := h.runCLI(dir, pa, c.Input)
+			pr := h.runCLI(dir, pa, c.Input, false)
 			if pr.Status == -999 || pr.Status == -1 {
 				res.herr = "the command could not be run or was killed: " + pr.Stderr + "\n" + progText
 				return
@@ -432,7 +466,7 @@ END { if (zz_p == 12345) { zz_p = 1; { zz_p = 2 } } }
 		}
 		existed := v.profile != "" && oldErr == nil
 		args := append(append(append([]string{}, v.flags...), progArgs...), inArgs...)
-		got := h.runCLI(dir, args, c.Input)
+		got := h.runCLI(dir, args, c.Input, c.StdinLeft)
 		if got.Status == -999 || got.Status == -1 {
 			res.herr = "the command could not be run or was killed: " + got.Stderr + "\n" + progText
 			return
@@ -441,7 +475,7 @@ END { if (zz_p == 12345) { zz_p = 1; { zz_p = 2 } } }
 		res.hist = append(res.hist, "run:"+v.name)
 
 		// (1) transparency
-		if got.Stdout != plain.Stdout || got.Status != plain.Status {
+		if got.Stdout != plain.Stdout || got.Status != plain.Status || got.Stderr != plain.Stderr || got.Left != plain.Left {
 			class := c.Kind
 			if codelessAction {
 				class = "action-or-END-body-of-only-empty-blocks"
@@ -449,8 +483,9 @@ END { if (zz_p == 12345) { zz_p = 1; { zz_p = 2 } } }
 				class = "action-with-empty-body"
 			}
 			fail(class, "output and exit status equal with and without coverage", map[string]any{
-				"args": args, "expected_stdout": plain.Stdout, "expected_status": plain.Status,
-				"got_stdout": got.Stdout, "got_status": got.Status, "got_stderr": got.Stderr})
+				"args": args, "plain_args": plainArgs, "expected_stdout": plain.Stdout, "expected_status": plain.Status,
+				"expected_stderr": plain.Stderr, "expected_left_on_stdin": plain.Left,
+				"got_stdout": got.Stdout, "got_status": got.Status, "got_stderr": got.Stderr, "got_left_on_stdin": got.Left})
 		}
 		if v.profile == "" || !markerOK || markerErr != nil {
 			continue
@@ -634,6 +669,17 @@ func handCases() []*Case {
 		hand("only-blocks", "{ { } }\nEND { { { } } }\n", in),
 		{Kind: "hand:end-only-blocks", Files: []PFile{{"a.awk", "END { { } }\n"}}, Input: in, Missing: true},
 		{Kind: "hand:end-only-blocks-begin", Files: []PFile{{"a.awk", "BEGIN { print 1 }\nEND { { } { { } } }\n"}}, Input: in, Missing: true, Extra: "eqflags"},
+		// is the input READ?  empty BEGIN/END/action blocks x inputs whose reading is observable
+		{Kind: "hand:empty-end-missing-input", Files: []PFile{{"a.awk", "BEGIN { print \"start\" } END { }\n"}}, Input: in, Missing: true},
+		{Kind: "hand:only-empty-end-missing-input", Files: []PFile{{"a.awk", "END { }\n"}}, Input: in, Missing: true, Extra: "count-append"},
+		{Kind: "hand:two-empty-ends-missing-input", Files: []PFile{{"a.awk", "BEGIN{x=1} END{} END{}\n"}}, Input: in, Missing: true},
+		{Kind: "hand:empty-end-stdin-left", Files: []PFile{{"a.awk", "BEGIN { print \"start\" } END { }\n"}}, Input: in, StdinLeft: true},
+		{Kind: "hand:begin-only-stdin-left", Files: []PFile{{"a.awk", "BEGIN { print \"start\" }\nBEGIN { }\n"}}, Input: in, StdinLeft: true},
+		{Kind: "hand:empty-end-dir-operand", Files: []PFile{{"a.awk", "END {}\n"}}, CmdLine: true, Input: in, DirInput: true},
+		{Kind: "hand:empty-action-missing-input", Files: []PFile{{"a.awk", "BEGIN { } { }\n"}}, Input: in, Missing: true},
+		{Kind: "hand:getline-only", Files: []PFile{{"a.awk", "BEGIN { while ((getline l) > 0) n++; print n + 0 }\n"}}, Input: in, StdinLeft: true},
+		{Kind: "hand:getline-only-empty-end", Files: []PFile{{"a.awk", "BEGIN { getline l; print l }\nEND { }\n"}}, Input: in, StdinLeft: true, Extra: "eqflags"},
+		{Kind: "hand:getline-file-missing", Files: []PFile{{"a.awk", "BEGIN { r = (getline l < \"no-such-file\"); print r } END { }\n"}}, Input: in, Missing: true},
 		{Kind: "hand:missing-input", Files: []PFile{{"a.awk", "{ print }\nEND { print NR }\n"}}, Input: in, Missing: true},
 		hand("only-empty-loops", "{ while (i++ < 3) ; for (;j < 2;j++) {} }\n", in),
 		hand("pattern-only", "NR == 2\n/a/\n", in),
@@ -779,6 +825,51 @@ func main() {
 			c.InFiles = []string{inputs[r.Intn(len(inputs))], inputs[r.Intn(len(inputs))]}
 		}
 		cases = append(cases, c)
+	}
+	// every combination of empty / non-empty / absent BEGIN, END and rule blocks, each with an input
+	// whose reading is observable (quick: one input dimension per program, thorough: all four)
+	{
+		begins := []string{"", "BEGIN { }", "BEGIN { print \"start\" }", "BEGIN { x = 1 }\nBEGIN {}", "BEGIN { if ((getline l) > 0) print \"got\", l }"}
+		ends := []string{"", "END { }", "END {}\nEND { }", "END { print NR }", "END { { } }", "END { }\nEND { print \"e\" }"}
+		rules := []string{"", "{ }", "NR == 1", "{ n++ }", "function f(a) { }"}
+		k := 0
+		for _, bg := range begins {
+			for _, en := range ends {
+				for _, ru := range rules {
+					var items []string
+					for _, it := range []string{bg, ru, en} {
+						if it != "" {
+							items = append(items, it)
+						}
+					}
+					if len(items) == 0 || (bg == "" && en == "" && ru == "function f(a) { }") {
+						continue
+					}
+					for dim := 0; dim < 4; dim++ {
+						if o.Tier != "thorough" && dim != k%4 {
+							continue
+						}
+						c := &Case{Kind: "empty-blocks-x-input", Files: []PFile{{"a.awk", strings.Join(items, "\n") + "\n"}}, Input: "a 1\nb 2\n"}
+						switch dim {
+						case 0:
+							c.Missing = true
+						case 1:
+							c.StdinLeft = true
+						case 2:
+							c.DirInput = true
+						case 3:
+							c.InFiles = []string{"p\nq\n"}
+							c.Missing = true
+						}
+						if r.Intn(4) == 0 {
+							c.Extra = extras[r.Intn(len(extras))]
+						}
+						cases = append(cases, c)
+					}
+					k++
+				}
+			}
+		}
 	}
 	for i := 0; i < nAwk; i++ {
 		p := awkgen.NewProgram(r, true, 1+r.Intn(3))
